@@ -1,6 +1,8 @@
 package main
 
 import (
+	"go/types"
+	"go/token"
 	"fmt"
 	"strings"
 
@@ -100,7 +102,7 @@ func c15R1(c *Ctx, id string) {
 			if !ok {
 				return
 			}
-			name := calleeOf(call).Name()
+			name := strings.TrimSuffix(calleeOf(call).Name(), "$bound") // a bound method value `create := tx.CreateBucket; create(k)` is the method
 			if createNames[name] {
 				n++
 				bad := createThenSet(cb, call, seqParam)
@@ -165,7 +167,76 @@ func c15R1(c *Ctx, id string) {
 			}
 			c.check(fmt.Sprintf("%s:Compact-callback:via-%s#%d", id, shortFn(h), n), cb, call.Pos(), "the bucket re-created in the destination (through a helper) gets SetSequence(seq) (seq = the callback's parameter) on every success path", bad == "", bad)
 		})
-		c.check(id+":Compact-callback:both-arms", cb, cb.Pos(), "the callback re-creates buckets in both arms (top-level and nested)", n >= 2, fmt.Sprintf("%d creation sites", n))
+		c.check(id+":Compact-callback:creates-buckets", cb, cb.Pos(), "the callback re-creates the buckets the walk reports", n >= 1, fmt.Sprintf("%d creation sites", n))
+		// bucket or key/value? walk reports a bucket with v == nil and a key with its value, which may be EMPTY but is
+		// never nil (Cursor returns a non-nil empty slice for an empty value). The decision must therefore be a nil test
+		// of the value parameter (or the top-level arm, where only buckets exist) — never its length.
+		var vParam *ssa.Parameter
+		{
+			k := 0
+			for _, p := range cb.Params {
+				if sl, ok := p.Type().Underlying().(*types.Slice); ok {
+					if b, ok := sl.Elem().Underlying().(*types.Basic); ok && b.Kind() == types.Byte {
+						k++
+						if k == 2 {
+							vParam = p // (keys [][]byte, k, v []byte, seq): the second []byte
+						}
+					}
+				}
+			}
+		}
+		badDisc := ""
+		if vParam == nil {
+			badDisc = "the callback has no value parameter"
+		} else {
+			eachInstr(cb, func(in ssa.Instruction) {
+				iff, ok := in.(*ssa.If)
+				if !ok {
+					return
+				}
+				// only branches that decide between re-creating a bucket and storing a key/value pair
+				discriminates := false
+				eachInstr(cb, func(i2 ssa.Instruction) {
+					c2, isCall := i2.(*ssa.Call)
+					if !isCall {
+						return
+					}
+					n2 := strings.TrimSuffix(calleeOf(c2).Name(), "$bound")
+					if !createNames[n2] && n2 != "bbolt.(*Bucket).Put" {
+						return
+					}
+					d0 := blockDominatedByEdge(iff.Block(), iff.Block().Succs[0], c2.Block())
+					d1 := blockDominatedByEdge(iff.Block(), iff.Block().Succs[1], c2.Block())
+					if d0 != d1 {
+						discriminates = true
+					}
+				})
+				if !discriminates {
+					return
+				}
+				for _, cv := range append([]ssa.Value{iff.Cond}, shortCircuitConds(iff.Cond)...) {
+					for _, l := range provenance(cv, provOpts{ThroughCall: throughAll}) {
+						if l.Kind == "call" && l.Name == "builtin:len" {
+							if call, ok := l.V.(*ssa.Call); ok && len(call.Call.Args) == 1 && resolveCell(call.Call.Args[0]) == ssa.Value(vParam) {
+								badDisc = "a branch at " + c.P.Position(iff.Pos()) + " depends on len(v): an empty value (a key of a set-like bucket) would be taken for a bucket"
+							}
+						}
+					}
+				}
+			})
+			nilTest := false
+			eachInstr(cb, func(in ssa.Instruction) {
+				if bo, ok := in.(*ssa.BinOp); ok && (bo.Op == token.EQL || bo.Op == token.NEQ) {
+					if (resolveCell(bo.X) == ssa.Value(vParam) && isNilConst(bo.Y)) || (resolveCell(bo.Y) == ssa.Value(vParam) && isNilConst(bo.X)) {
+						nilTest = true
+					}
+				}
+			})
+			if badDisc == "" && !nilTest {
+				badDisc = "the callback never tests v against nil"
+			}
+		}
+		c.check(id+":Compact-callback:bucket-iff-nil-value", cb, cb.Pos(), "bucket versus key/value is decided by `v == nil`, never by the length of v (empty values are legal)", badDisc == "", badDisc)
 		// walk / walkBucket: seq is the Sequence() of the bucket reported
 		k := 0
 		for _, fn := range c.P.FnsIn(rootPkg) {
